@@ -501,3 +501,120 @@ Lemma witnesses_accepted_when_repaired :
     (u "external_references.[0].url") = true /\
   validate_selector cfg_repaired [(u "x_m", VList [VList [VStr (u "a"); VStr (u "b")]])] (u "x_m.[0].[1]") = true.
 Proof. vm_compute. auto. Qed.
+
+(* ---------------------------------------------------------------- *)
+(* construction: exactly "addresses and is in the selector grammar"  *)
+
+Lemma negb_forallb_false : forall {A} (f : A -> bool) l, negb (forallb f l) = false <-> forall x, In x l -> f x = true.
+Proof. intros A f l. rewrite negb_false_iff. apply forallb_forall. Qed.
+
+Theorem constructor_accepts_iff : forall c o,
+  selector_repaired c -> c_ind20 c = Ind20Checked -> o_kind o = KObj ->
+  (ctor_check c o = None <->
+   (forall m, In m (omr_list o) -> is_marking m = true) /\
+   (forall g, In g (gms_list o) ->
+      g_sels g <> [] /\ (o_v21 o = true \/ nonempty (g_lang g) = false) /\
+      forall s, In s (g_sels g) -> selector_syntax_ok c s = true /\ addresses_something (view o) s)).
+Proof.
+  intros c o Hrep Hi Hk. unfold ctor_check. rewrite Hk.
+  assert (Hs : skips_selector_check c o = false) by (unfold skips_selector_check; rewrite Hi; reflexivity).
+  rewrite Hs.
+  destruct (negb (forallb is_marking (omr_list o))) eqn:EA.
+  { split; [discriminate|]. intros [HA _]. apply (proj2 (negb_forallb_false _ _)) in HA. congruence. }
+  pose proof (proj1 (negb_forallb_false _ _) EA) as EA'. clear EA. rename EA' into EA.
+  match goal with |- context [negb (forallb ?f (gms_list o))] => set (fB := f) end.
+  destruct (negb (forallb fB (gms_list o))) eqn:EB.
+  { split; [discriminate|]. intros [_ HB]. exfalso.
+    assert (negb (forallb fB (gms_list o)) = false).
+    { apply (proj2 (negb_forallb_false _ _)). intros g Hg. destruct (HB g Hg) as [Hne [Hl Hss]]. unfold fB.
+      apply andb_true_iff. split; [apply andb_true_iff; split|].
+      - apply forallb_forall. intros s Hsin. apply Hss. exact Hsin.
+      - destruct Hl as [Hl|Hl]; rewrite Hl; [reflexivity | apply orb_true_r].
+      - destruct (g_sels g); [congruence | reflexivity]. }
+    congruence. }
+  pose proof (proj1 (negb_forallb_false _ _) EB) as EB'. clear EB. rename EB' into EB.
+  destruct (negb (forallb (fun g => validate c (view o) (g_sels g)) (gms_list o))) eqn:EC.
+  { split; [discriminate|]. intros [_ HB]. exfalso.
+    assert (negb (forallb (fun g => validate c (view o) (g_sels g)) (gms_list o)) = false).
+    { apply (proj2 (negb_forallb_false _ _)). intros g Hg. destruct (HB g Hg) as [Hne [_ Hss]].
+      apply (validate_iff_addresses c Hrep). split; auto. intros s Hsin. apply Hss. exact Hsin. }
+    congruence. }
+  pose proof (proj1 (negb_forallb_false _ _) EC) as EC'. clear EC. rename EC' into EC.
+  split; [intros _|reflexivity]. split; [exact EA|].
+  intros g Hg. pose proof (EB g Hg) as HB. unfold fB in HB.
+  apply andb_true_iff in HB. destruct HB as [HB1 HB3]. apply andb_true_iff in HB1. destruct HB1 as [HB1 HB2].
+  pose proof (EC g Hg) as HC. apply (validate_iff_addresses c Hrep) in HC. destruct HC as [Hne Hadd].
+  split; [exact Hne|]. split.
+  - apply orb_true_iff in HB2. destruct HB2 as [H|H]; [left; exact H | right; apply negb_true_iff; exact H].
+  - intros s Hsin. split; [|apply Hadd; exact Hsin]. rewrite forallb_forall in HB1. apply HB1. exact Hsin.
+Qed.
+
+(* the constructor raises InvalidSelectorError only for a selector that addresses nothing *)
+Theorem constructor_rejects_only_nonaddressing : forall c o,
+  selector_repaired c -> ctor_check c o = Some EInvalidSelector ->
+  exists g s, In g (gms_list o) /\ In s (g_sels g) /\ ~ addresses_something (view o) s.
+Proof.
+  intros c o Hrep H. unfold ctor_check in H. destruct (o_kind o); [discriminate|].
+  destruct (negb (forallb is_marking (omr_list o))); [discriminate|].
+  match type of H with context [negb (forallb ?f (gms_list o))] => set (fB := f) in H end.
+  destruct (negb (forallb fB (gms_list o))) eqn:EB; [discriminate|].
+  destruct (skips_selector_check c o); [discriminate|].
+  destruct (forallb (fun g => validate c (view o) (g_sels g)) (gms_list o)) eqn:EC; [discriminate|].
+  assert (Hex : exists g, In g (gms_list o) /\ validate c (view o) (g_sels g) = false).
+  { clear -EC. induction (gms_list o) as [|g l IH]; [discriminate|]. simpl in EC.
+    destruct (validate c (view o) (g_sels g)) eqn:E.
+    - destruct (IH EC) as [g' [H1 H2]]. exists g'. split; [right|]; assumption.
+    - exists g. split; [left; reflexivity | exact E]. }
+  destruct Hex as [g [Hg Hv]]. pose proof (proj1 (negb_forallb_false _ _) EB) as EB'. clear EB. rename EB' into EB. pose proof (EB g Hg) as HB. unfold fB in HB.
+  apply andb_true_iff in HB. destruct HB as [_ HB3].
+  assert (Hne : g_sels g <> []) by (destruct (g_sels g); [discriminate | discriminate]).
+  (* some selector of g fails validate_selector *)
+  assert (Hs : exists s, In s (g_sels g) /\ validate_selector c (view o) s = false).
+  { unfold validate in Hv. destruct (g_sels g) as [|s0 ss] eqn:Es; [congruence|].
+    clear -Hv. remember (s0 :: ss) as l. clear Heql. induction l as [|s l IH]; [discriminate|]. simpl in Hv.
+    destruct (validate_selector c (view o) s) eqn:E.
+    - destruct (IH Hv) as [s' [H1 H2]]. exists s'. split; [right|]; assumption.
+    - exists s. split; [left; reflexivity | exact E]. }
+  destruct Hs as [s [Hsin Hsf]]. exists g, s. split; auto. split; auto.
+  intro Ha. apply (validate_selector_iff_addresses c Hrep) in Ha. congruence.
+Qed.
+
+(* ---------------------------------------------------------------- *)
+(* mutators on plain dicts accept what validate accepts              *)
+
+Lemma new_version_dict_errors : forall c o a b e,
+  o_kind o = KDict -> new_version c o a b = Err e ->
+  e = ETypeNotVersionable \/ e = EObjectNotVersionable \/ e = ERevoked.
+Proof.
+  intros c o a b e Hk H. unfold new_version in H.
+  destruct (check_versionable o) as [e0|] eqn:Ev.
+  - inversion H. subst e0. unfold check_versionable in Ev.
+    destruct (_ && _ && _); [discriminate|]. destruct (negb (o_vtype o)); [inversion Ev; auto|].
+    destruct (negb (has_key _ _)); inversion Ev; auto.
+  - destruct (is_revoked o); [inversion H; auto|].
+    unfold ctor_check in H. simpl in H. rewrite Hk in H. discriminate.
+Qed.
+
+Theorem dict_mutators_accept : forall c o m sels r l e,
+  o_kind o = KDict -> validate c (view o) sels = true ->
+  (g_add_markings c o m sels = Err e \/ g_remove_markings c o m sels = Err e \/ g_clear_markings c o sels r l = Err e) ->
+  e <> EInvalidSelector /\ e <> EInvalidValue.
+Proof.
+  intros c o m sels r l e Hk Hv H.
+  assert (Hnv : forall a b, new_version c o a b = Err e -> e <> EInvalidSelector /\ e <> EInvalidValue).
+  { intros a b Hn. destruct (new_version_dict_errors c o a b e Hk Hn) as [E|[E|E]]; subst e; split; discriminate. }
+  destruct H as [H|[H|H]].
+  - unfold g_add_markings in H. rewrite Hv in H. simpl in H. eauto.
+  - unfold g_remove_markings in H. rewrite Hv in H. simpl in H.
+    destruct (gms_list o); [discriminate|]. destruct (negb (existsb _ _)) in H.
+    + inversion H. split; discriminate.
+    + match type of H with
+      | match compress_markings ?k with _ => _ end = _ => destruct (compress_markings k) as [[|xx ll]|]
+      end; eauto.
+  - unfold g_clear_markings in H. rewrite Hv in H. simpl in H.
+    destruct (gms_list o); [discriminate|]. destruct (negb (existsb _ _)) in H.
+    + inversion H. split; discriminate.
+    + match type of H with
+      | match compress_markings ?k with _ => _ end = _ => destruct (compress_markings k) as [[|xx ll]|]
+      end; eauto.
+Qed.
